@@ -1,13 +1,13 @@
 #!/bin/bash
-# Processes /var/tmp/q/ingest/queue (lines "<pid-lower> <first-store>") one after the other; ends on a line "STOP".
-q=/var/tmp/q/ingest/queue; touch "$q"; done_n=0
+# Processes $Q (default /var/tmp/q/ingest/queue; lines "<pid-lower> <first-store>") one after the other; ends on a line "STOP".
+q="${Q:-/var/tmp/q/ingest/queue}"; touch "$q"; done_n=0; d="$(dirname "$q")"
 while true; do
   total=$(wc -l < "$q")
   if [ "$done_n" -lt "$total" ]; then
     done_n=$((done_n+1)); line="$(sed -n "${done_n}p" "$q")"
     [ "$line" = "STOP" ] && break
     set -- $line
-    /verif/tools/ingest_round.sh "$1" "$2" > "/var/tmp/q/ingest/$1.log" 2>&1
-    echo "$1 done" >> /var/tmp/q/ingest/done
+    /verif/tools/ingest_round.sh "$1" "$2" > "$d/$1.log" 2>&1
+    echo "$1 done" >> "$d/done"
   else sleep 20; fi
 done
